@@ -39,7 +39,7 @@ func init() {
 	gens["C05"] = simple(genC05, 1700, 20000)
 	gens["C06"] = simple(genC06, 3000, 100000)
 	gens["C07"] = simple(genC07, 1500, 200000)
-	gens["C08"] = simple(genC08, 70, 6000)
+	gens["C08"] = simple(genC08, 115, 6000)
 	gens["C09"] = simple(genC09, 120, 8000)
 	gens["C13"] = simple(genC13, 2500, 300000)
 	gens["C14"] = simple(genC14, 900, 100000)
